@@ -137,6 +137,7 @@ def run(run):
         some = [r for r in rets if r[0] == "agg" and r[2] == "Some"]
         cls = {c.split("::")[-1]: [strip(r) for r in Expr(prog, c).returns()] for c in prog.closures_of(bd)}
         ok = len(some) == 1
+        selective = ""
         if ok:
             tup = strip(some[0][3][0][1])
             ok = tup[0] == "agg" and len(tup[3]) == 2
@@ -155,11 +156,27 @@ def run(run):
                         mm = mentions(a, lambda z: z[0] == "call" and z[1].endswith("Itertools::minmax"))
                         crd = cls.get(cl[0], [()])[0] if cl else ()
                         good = mm and sel and sel[-1] == str(idx) and crd and crd[0] == "param" and crd[2][-1:] == (coord,)
+                        # the extremes are taken over *all* cells of the map: minmax(map(self.iter(), |..| coord)) with
+                        # nothing between the map's iterator and the projection (no filter, no helper that selects)
+                        mmz = []
+                        mentions(a, lambda z: z[0] == "call" and z[1].endswith("Itertools::minmax") and mmz.append(z) and False)
+                        if good and mmz:
+                            e = strip(mmz[0][2][0])
+                            direct = e[0] == "call" and re.search(r"Iterator::map$", e[1]) and e[2]
+                            if direct:
+                                e = strip(e[2][0])
+                                while e[0] == "call" and re.search(r"::(iter|deref|into_iter)$", e[1]) and e[2]:
+                                    e = strip(e[2][0])
+                                direct = e[0] == "param" and e[1] == 1
+                            if not direct:
+                                good = False
+                                selective = "the cells are taken from `%s`, not directly from the cell map" % expr_str(strip(mmz[0][2][0]))[:100]
                         ok = ok and bool(good)
         if ok:
             run.ok("C12.M1", "bounds() = ((min x, min y), (max x, max y)) of the occupied cells", where(bb))
         else:
-            run.bad("C12.M1", "bounds-shape", where(bb), "bounds() is not the min/max of the cells' x and y: %s" % " | ".join(expr_str(r)[:120] for r in rets))
+            run.bad("C12.M1", "bounds-shape", where(bb), "bounds() is not the min/max of the x and y of all cells%s: %s" % (
+                (" (" + selective + ")") if selective else "", " | ".join(expr_str(r)[:120] for r in rets)))
     # ---------------- M2 rendered => bounded
     cbadt = prog.adts.get("svgbob::buffer::cell_buffer::CellBuffer")
     if not cbadt or not bd:
